@@ -25,6 +25,44 @@ def fn_body(src, name):
     die("function %s: unbalanced braces" % name)
 
 
+def fn_body_opt(src, name):
+    m = re.search(r"fn\s+%s\s*(?:<[^>]*>)?\s*\(" % re.escape(name), src)
+    if not m:
+        return None
+    i = src.index("{", m.end())
+    depth = 0
+    for j in range(i, len(src)):
+        if src[j] == "{":
+            depth += 1
+        elif src[j] == "}":
+            depth -= 1
+            if depth == 0:
+                return src[i:j + 1]
+    return None
+
+
+def strip_comments(src):
+    src = re.sub(r"/\*.*?\*/", "", src, flags=re.S)
+    return re.sub(r"//[^\n]*", "", src)
+
+
+def inlined(body, src, depth=3, seen=()):
+    """the body with every call `self.helper(..)` of a method defined in the same file replaced by that method's body
+    (a few levels deep): an atomic operation reached through a private helper is found where the model performs it"""
+    if depth == 0:
+        return body
+
+    def repl(m):
+        name = m.group(1)
+        if name in seen:
+            return m.group(0)
+        b = fn_body_opt(src, name)
+        if b is None:
+            return m.group(0)
+        return "{ " + inlined(b, src, depth - 1, seen + (name,)) + " } ("
+    return re.sub(r"\bself\s*\.\s*(\w+)\s*\(", repl, body)
+
+
 def one_ordering(body, what, where):
     found = re.findall(r"%s[^;]*?Ordering::(\w+)" % what, body, re.S)
     if len(found) != 1:
@@ -42,33 +80,39 @@ def orderings_in_order(body, what, where, n):
 def main():
     repo, gen = sys.argv[1], sys.argv[2]
     ac = open(os.path.join(repo, "src/iter/atomic_counter.rs")).read()
-    it = open(os.path.join(repo, "src/iter/implementors/iter.rs")).read()
+    it = strip_comments(open(os.path.join(repo, "src/iter/implementors/iter.rs")).read())
+    ac = strip_comments(ac)
+    plain_fn_body = fn_body
+
+    def fn_body_it(src, name):
+        b = plain_fn_body(src, name)
+        return inlined(b, src, seen=(name,))
     tab = {}
-    tab["counter_fetch_and_add"] = one_ordering(fn_body(ac, "fetch_and_add"), r"\.fetch_add\(", "AtomicCounter::fetch_and_add")
-    tab["counter_fetch_and_increment"] = one_ordering(fn_body(ac, "fetch_and_increment"), r"\.fetch_add\(", "AtomicCounter::fetch_and_increment")
-    tab["counter_current"] = one_ordering(fn_body(ac, "current"), r"\.load\(", "AtomicCounter::current")
-    tab["counter_store"] = one_ordering(fn_body(ac, "store"), r"\.store\(", "AtomicCounter::store")
-    tab["counter_clone"] = one_ordering(fn_body(ac, "clone"), r"\.load\(", "AtomicCounter::clone")
+    tab["counter_fetch_and_add"] = one_ordering(fn_body_it(ac, "fetch_and_add"), r"\.fetch_add\(", "AtomicCounter::fetch_and_add")
+    tab["counter_fetch_and_increment"] = one_ordering(fn_body_it(ac, "fetch_and_increment"), r"\.fetch_add\(", "AtomicCounter::fetch_and_increment")
+    tab["counter_current"] = one_ordering(fn_body_it(ac, "current"), r"\.load\(", "AtomicCounter::current")
+    tab["counter_store"] = one_ordering(fn_body_it(ac, "store"), r"\.store\(", "AtomicCounter::store")
+    tab["counter_clone"] = one_ordering(fn_body_it(ac, "clone"), r"\.load\(", "AtomicCounter::clone")
     # each waiting loop loads the flag twice: in every round, and once more when the ticket equals the yielded counter
     tab["completed_load_progress"], tab["completed_load_progress_turn"] = orderings_in_order(
-        fn_body(it, "progress_and_get_begin_idx"), r"completed\s*\.load\(", "ConIterOfIter::progress_and_get_begin_idx", 2)
-    g = fn_body(it, "get")
+        fn_body_it(it, "progress_and_get_begin_idx"), r"completed\s*\.load\(", "ConIterOfIter::progress_and_get_begin_idx", 2)
+    g = fn_body_it(it, "get")
     tab["completed_load_get"], tab["completed_load_get_turn"] = orderings_in_order(g, r"completed\s*\.load\(", "ConIterOfIter::get", 2)
     tab["completed_store_get"] = one_ordering(g, r"completed\s*\.store\(", "ConIterOfIter::get")
     # the chunk pulls (fetch_n and the buffered pull) raise the flag through ConIterOfIter::complete
-    tab["completed_store_complete"] = one_ordering(fn_body(it, "complete"), r"completed\s*\.store\(", "ConIterOfIter::complete")
-    tab["completed_store_early_exit"] = one_ordering(fn_body(it, "early_exit"), r"completed\s*\.store\(", "ConIterOfIter::early_exit")
-    tab["completed_load_try_get_len"] = one_ordering(fn_body(it, "try_get_len"), r"completed\s*\.load\(", "ConIterOfIter::try_get_len")
+    tab["completed_store_complete"] = one_ordering(fn_body_it(it, "complete"), r"completed\s*\.store\(", "ConIterOfIter::complete")
+    tab["completed_store_early_exit"] = one_ordering(fn_body_it(it, "early_exit"), r"completed\s*\.store\(", "ConIterOfIter::early_exit")
+    tab["completed_load_try_get_len"] = one_ordering(fn_body_it(it, "try_get_len"), r"completed\s*\.load\(", "ConIterOfIter::try_get_len")
     m = re.search(r"impl\s+Drop\s+for\s+CompleteOnUnwind[^{]*\{", it)
     if not m:
         die("impl Drop for CompleteOnUnwind not found")
     tab["completed_store_unwind"] = one_ordering(fn_body(it[m.start():], "drop"), r"\.store\(", "CompleteOnUnwind::drop")
     # which method of AtomicCounter each use site of the two counters of ConIterOfIter calls
     uses = {
-        "yielded_publish_single": (fn_body(it, "get"), r"yielded_counter\s*\.\s*(fetch_and_increment|fetch_and_add)\s*\("),
-        "yielded_publish_chunk": (fn_body(it, "progress_yielded_counter"), r"yielded_counter\s*\.\s*(fetch_and_increment|fetch_and_add)\s*\("),
-        "yielded_read_get": (fn_body(it, "get"), r"yielded_counter\s*\.\s*(current)\s*\("),
-        "yielded_read_progress": (fn_body(it, "progress_and_get_begin_idx"), r"yielded_counter\s*\.\s*(current)\s*\("),
+        "yielded_publish_single": (fn_body_it(it, "get"), r"yielded_counter\s*\.\s*(fetch_and_increment|fetch_and_add)\s*\("),
+        "yielded_publish_chunk": (fn_body_it(it, "progress_yielded_counter"), r"yielded_counter\s*\.\s*(fetch_and_increment|fetch_and_add)\s*\("),
+        "yielded_read_get": (fn_body_it(it, "get"), r"yielded_counter\s*\.\s*(current)\s*\("),
+        "yielded_read_progress": (fn_body_it(it, "progress_and_get_begin_idx"), r"yielded_counter\s*\.\s*(current)\s*\("),
     }
     for k, (body, pat) in uses.items():
         f = re.findall(pat, body)
